@@ -64,6 +64,14 @@ GEN_MODELS = {
     'gen:triple_assign_copy': ('ADVAN1 TRANS2', ['CL = THETA(1)*EXP(ETA(1))', 'TVV = THETA(2)', 'TVV = TVV*WGT',
                                                   'VNORM = TVV', 'TVV = TVV*(1 + THETA(3))', 'V = TVV*EXP(ETA(2))',
                                                   'S1 = V/VNORM'], False),
+    # models without ODE system ($PRED): the extractor clause applies; variables upstream of Y are assigned twice, the
+    # later assignment using its own previous value (a model variable, and a data column that is capped then normalised)
+    'gen:pred_reassign': ('$PRED', ['TVCL = THETA(1)*WGT', 'TVV = THETA(2)*WGT', 'IF (APGR.LT.5) TVV = TVV*(1 + THETA(3))',
+                                     'CL = TVCL*EXP(ETA(1))', 'V = TVV*EXP(ETA(2))', 'IPRED = AMT/V*EXP(-CL/V*TIME)',
+                                     'W = IPRED', 'Y = IPRED + W*EPS(1)'], False),
+    'gen:pred_column_reassign': ('$PRED', ['WT = WGT', 'IF (WT.GT.3) WT = 3', 'WT = WT/2', 'CL = THETA(1)*WT*EXP(ETA(1))',
+                                            'V = THETA(2)*EXP(ETA(2))*(1 + THETA(3)*WT)',
+                                            'IPRED = AMT/V*EXP(-CL/V*TIME)', 'Y = IPRED*(1 + EPS(1))'], False),
     # a rate constant defined through a chain of aliases
     'gen:alias_chain': ('ADVAN1 TRANS1', ['TVK = THETA(1)', 'KK = TVK', 'K = KK', 'V = THETA(2)*EXP(ETA(2))', 'S1 = V'], False),
     # a parameter of the ODE system is assigned again after the ODE system
@@ -73,6 +81,7 @@ GEN_MODELS = {
 # quick tier visits these first (small models + the generated ones), the rest in seeded order within the budget
 PRIORITY = ['minimal.mod', 'pheno_pd.mod', 'models/mox2.mod', 'models/pheno5.mod', 'gen:eta_forms', 'gen:logit_shared',
             'gen:reassign_after_ode', 'gen:alias_chain', 'gen:alias_before_redef', 'gen:triple_assign_copy',
+            'gen:pred_reassign', 'gen:pred_column_reassign',
             'pheno_real.mod', 'example:pheno_linear']
 _MODELS = {}
 
@@ -95,7 +104,7 @@ def get_start(label):
         import C01
         sub, pk, three = GEN_MODELS[label][:3]
         err = GEN_MODELS[label][3] if len(GEN_MODELS[label]) > 3 else None
-        text = C01.pk_program(sub, pk, error=err)
+        text = C01.pred_program(pk) if sub == '$PRED' else C01.pk_program(sub, pk, error=err)
         if three:
             text = text.replace('$OMEGA 0.2', '$OMEGA 0.2\n$OMEGA 0.3')
         m = pm.read_model_from_string(text)
